@@ -143,4 +143,141 @@ theorem hydrateMethods_ok (fi si : Nat) (fqn : String) (W : Seen) (hW : (W.map (
     refine ⟨(⟨fi, [6, si, 2, j]⟩, a, b) :: mio, ?_⟩
     simp only [hydrateMethods, declMethodsFrom, List.reverse_cons, List.append_assoc, List.singleton_append, ← hd, ha, hb, hm]
 
+
+theorem hydrateServices_ok (fi : Nat) (scope : String) (W : Seen) (hW : (W.map (·.key)).Nodup) :
+    ∀ (svcs : List ServiceD) (s : Seen) (i : Nat) (base : List Decl),
+      (∀ d ∈ base, d ∈ s) →
+      (∃ later, W = later ++ (declSvcsFrom fi scope i svcs).reverse ++ s) →
+      (∀ sv ∈ svcs, ∀ m ∈ sv.methods, Resolves base m.input .msg ∧ Resolves base m.output .msg) →
+      ∃ mio, hydrateServices fi scope s i svcs = .ok ((declSvcsFrom fi scope i svcs).reverse ++ s, mio) := by
+  intro svcs
+  induction svcs with
+  | nil => intro s i base _ _ _; exact ⟨[], rfl⟩
+  | cons sv svs ih =>
+    intro s i base hbase hsuf hres
+    obtain ⟨later, hlater⟩ := hsuf
+    obtain ⟨d, hd⟩ : ∃ d : Decl, d = ⟨scope ++ "." ++ sv.name, ⟨fi, [6, i]⟩, .service⟩ := ⟨_, rfl⟩
+    simp only [declSvcsFrom, declSvcFrom, List.reverse_append, List.reverse_cons, List.append_assoc,
+      List.singleton_append, ← hd] at hlater
+    have hbase' : ∀ x ∈ base, x ∈ d :: s := fun x hx => List.mem_cons_of_mem _ (hbase x hx)
+    obtain ⟨m1, hm1⟩ := hydrateMethods_ok fi i (scope ++ "." ++ sv.name) W hW sv.methods (d :: s) 0 base hbase'
+      ⟨later ++ (declSvcsFrom fi scope (i+1) svs).reverse, by rw [hlater]; simp⟩
+      (hres sv (List.mem_cons_self ..))
+    have hbase'' : ∀ x ∈ base, x ∈ (declMethodsFrom fi i (scope ++ "." ++ sv.name) 0 sv.methods).reverse ++ d :: s :=
+      fun x hx => List.mem_append_right _ (hbase' x hx)
+    obtain ⟨m2, hm2⟩ := ih ((declMethodsFrom fi i (scope ++ "." ++ sv.name) 0 sv.methods).reverse ++ d :: s) (i+1) base hbase''
+      ⟨later, by rw [hlater]; simp⟩ (fun x hx => hres x (List.mem_cons_of_mem _ hx))
+    refine ⟨m1 ++ m2, ?_⟩
+    simp only [hydrateServices, ← hd, hm1, hm2, declSvcsFrom, declSvcFrom, List.reverse_append, List.reverse_cons,
+      List.append_assoc, List.singleton_append]
+
+/-! ### field types -/
+
+/-- a map entry's key / value field resolves -/
+structure EntryRes (ds : List Decl) (e : FieldD) : Prop where
+  noGroup : e.type ≠ 10
+  notRepeated : e.label ≠ 3
+  enum : e.type = 14 → Resolves ds e.typeName .enum
+  msg : e.type = 11 → Resolves ds e.typeName .msg
+
+/-- a field's (or extension's) type resolves against the declarations `ds` -/
+structure FieldRes (w : World) (ds : List Decl) (fd : FieldD) : Prop where
+  noGroup : fd.type ≠ 10
+  enum : fd.type = 14 → Resolves ds fd.typeName .enum
+  msg : fd.type = 11 → ∃ d ∈ ds, d.key = fd.typeName ∧ d.kind = .msg ∧
+      (fd.label = 3 → ∃ h n, w.msgAt d.ref = some (h, n) ∧
+        (h.mapEntry = true → ∃ k v rest, h.fields = k :: v :: rest ∧ EntryRes ds k ∧ EntryRes ds v))
+
+theorem entryElem_ok (s : Seen) (hs : (s.map (·.key)).Nodup) (owner : Ref) (e : FieldD) (h : EntryRes s e) :
+    ∃ el, entryElem s owner e = .ok el := by
+  unfold entryElem
+  simp only [h.noGroup, h.notRepeated, if_false]
+  by_cases h14 : e.type = 14
+  · obtain ⟨r, hr⟩ := mustSeen_of_resolves s hs _ _ (h.enum h14)
+    simp [h14, hr, Except.map]
+  · simp only [h14, if_false]
+    by_cases h11 : e.type = 11
+    · obtain ⟨r, hr⟩ := mustSeen_of_resolves s hs _ _ (h.msg h11)
+      simp [h11, hr, Except.map]
+    · simp [h11]
+
+theorem fieldType_ok (w : World) (s : Seen) (hs : (s.map (·.key)).Nodup) (owner : Ref) (fd : FieldD)
+    (h : FieldRes w s fd) : ∃ t, fieldType w s owner fd = .ok t := by
+  unfold fieldType
+  simp only [h.noGroup, if_false]
+  by_cases h3 : fd.label = 3
+  · simp only [h3, if_true]
+    by_cases h14 : fd.type = 14
+    · obtain ⟨r, hr⟩ := mustSeen_of_resolves s hs _ _ (h.enum h14)
+      simp [h14, hr, Except.map]
+    · simp only [h14, if_false]
+      by_cases h11 : fd.type = 11
+      · obtain ⟨d, hd, hk, hkind, hrep⟩ := h.msg h11
+        obtain ⟨hh, n, hat, hmap⟩ := hrep h3
+        have hm : mustSeen s fd.typeName .msg = .ok d.ref := by
+          rw [← hk, ← hkind]; exact mustSeen_ok s hs d hd
+        simp only [h11, if_true, hm, hat]
+        by_cases hme : hh.mapEntry = true
+        · obtain ⟨k, v, rest, hf, hk', hv'⟩ := hmap hme
+          obtain ⟨ke, hke⟩ := entryElem_ok s hs owner k hk'
+          obtain ⟨ve, hve⟩ := entryElem_ok s hs owner v hv'
+          simp [hme, hf, hke, hve]
+        · simp [hme]
+      · simp [h11]
+  · simp only [h3, if_false]
+    by_cases h14 : fd.type = 14
+    · obtain ⟨r, hr⟩ := mustSeen_of_resolves s hs _ _ (h.enum h14)
+      simp [h14, hr, Except.map]
+    · simp only [h14, if_false]
+      by_cases h11 : fd.type = 11
+      · obtain ⟨d, hd, hk, hkind, _⟩ := h.msg h11
+        have hm : mustSeen s fd.typeName .msg = .ok d.ref := by
+          rw [← hk, ← hkind]; exact mustSeen_ok s hs d hd
+        simp [h11, hm, Except.map]
+      · simp [h11]
+
+theorem fieldTypes_ok (w : World) (s : Seen) (hs : (s.map (·.key)).Nodup) (fi : Nat) (p : List Nat) (tag : Nat) :
+    ∀ (fs : List FieldD) (i : Nat), (∀ fd ∈ fs, FieldRes w s fd) → ∃ ts, fieldTypes w s fi p tag i fs = .ok ts := by
+  intro fs
+  induction fs with
+  | nil => intro i _; exact ⟨[], rfl⟩
+  | cons fd fs ih =>
+    intro i h
+    obtain ⟨t, ht⟩ := fieldType_ok w s hs ⟨fi, p ++ [tag, i]⟩ fd (h fd (List.mem_cons_self ..))
+    obtain ⟨ts, hts⟩ := ih (i+1) (fun x hx => h x (List.mem_cons_of_mem _ hx))
+    exact ⟨(⟨fi, p ++ [tag, i]⟩, t) :: ts, by simp [fieldTypes, ht, hts]⟩
+
+/-- a property of every field of every message of a forest -/
+def AllFields (P : FieldD → Prop) : Msgs → Prop
+  | .nil => True
+  | .cons h nested rest => (∀ fd ∈ h.fields, P fd) ∧ AllFields P nested ∧ AllFields P rest
+
+theorem msgFieldTypes_ok (w : World) (s : Seen) (hs : (s.map (·.key)).Nodup) (fi : Nat) :
+    ∀ (ms : Msgs) (p : List Nat) (tag i : Nat), AllFields (FieldRes w s) ms → ∃ ts, msgFieldTypes w s fi p tag i ms = .ok ts := by
+  intro ms
+  induction ms with
+  | nil => intro p tag i _; exact ⟨[], rfl⟩
+  | cons h nested rest ih1 ih2 =>
+    intro p tag i hall
+    obtain ⟨ha, hb, hc⟩ := hall
+    obtain ⟨t1, ht1⟩ := fieldTypes_ok w s hs fi (p ++ [tag, i]) 2 h.fields 0 ha
+    obtain ⟨t2, ht2⟩ := ih1 (p ++ [tag, i]) 3 0 hb
+    obtain ⟨t3, ht3⟩ := ih2 p tag (i+1) hc
+    exact ⟨t1 ++ t2 ++ t3, by simp [msgFieldTypes, ht1, ht2, ht3]⟩
+
+theorem hydrateExts_ok (w : World) (s : Seen) (hs : (s.map (·.key)).Nodup) :
+    ∀ (xs : List (Ref × FieldD)), (∀ x ∈ xs, FieldRes w s x.2 ∧ Resolves s x.2.extendee .msg) →
+      ∃ r, hydrateExts w s xs = .ok r := by
+  intro xs
+  induction xs with
+  | nil => intro _; exact ⟨([], []), rfl⟩
+  | cons x xs ih =>
+    intro h
+    obtain ⟨r, fd⟩ := x
+    obtain ⟨h1, h2⟩ := h (r, fd) (List.mem_cons_self ..)
+    obtain ⟨t, ht⟩ := fieldType_ok w s hs r fd h1
+    obtain ⟨m, hm⟩ := mustSeen_of_resolves s hs _ _ h2
+    obtain ⟨⟨ts, ms⟩, hrest⟩ := ih (fun y hy => h y (List.mem_cons_of_mem _ hy))
+    exact ⟨((r, t) :: ts, (r, m) :: ms), by simp only [hydrateExts, ht, hm, hrest]⟩
+
 end Pgs.AST
